@@ -214,7 +214,7 @@ func closeStacks(c *ctxT) {
 			go func() { wg.Wait(); close(ch) }()
 			select {
 			case <-ch:
-			case <-time.After(2 * time.Second):
+			case <-time.After(6 * time.Second):
 				for i, d := range done {
 					select {
 					case <-d:
@@ -225,7 +225,7 @@ func closeStacks(c *ctxT) {
 			}
 			// Close releases the goroutines the swarm started
 			left := 0
-			for deadline := time.Now().Add(1500 * time.Millisecond); time.Now().Before(deadline); time.Sleep(5 * time.Millisecond) {
+			for deadline := time.Now().Add(6 * time.Second); time.Now().Before(deadline); time.Sleep(5 * time.Millisecond) {
 				if left = runtime.NumGoroutine() - base; left <= 0 {
 					break
 				}
@@ -284,7 +284,7 @@ func cancelStacks(c *ctxT) {
 		go func() { wg.Wait(); close(ch) }()
 		select {
 		case <-ch:
-		case <-time.After(1500 * time.Millisecond):
+		case <-time.After(5 * time.Second):
 			for i, d := range done {
 				select {
 				case <-d:
